@@ -37,6 +37,7 @@ type Solver struct {
 	timeoutMs int
 	Log     io.Writer // optional transcript
 	dead    bool
+	runOpen bool
 }
 
 func NewSolver(kind string, timeoutMs int) (*Solver, error) {
@@ -132,14 +133,25 @@ func (s *Solver) roundTrip() []string {
 
 // BeginRun opens a scope; all declarations/definitions/assertions of one path live in it.
 func (s *Solver) BeginRun() {
-	s.send("(push 1)\n")
+	s.runOpen = false
 	s.emitted = map[int32]bool{}
 	s.declUF = map[string]bool{}
 }
 
+// open lazily opens the per-run scope (paths that never touch the solver cost nothing).
+func (s *Solver) open() {
+	if !s.runOpen {
+		s.runOpen = true
+		s.send("(push 1)\n")
+	}
+}
+
 func (s *Solver) EndRun() {
-	s.send("(pop 1)\n")
-	s.flush()
+	if s.runOpen {
+		s.send("(pop 1)\n")
+		s.flush()
+		s.runOpen = false
+	}
 }
 
 // define emits declarations/definitions for every node reachable from t not yet emitted.
@@ -147,6 +159,7 @@ func (s *Solver) define(t *Term) {
 	if t.Op == OConst || s.emitted[t.id] {
 		return
 	}
+	s.open()
 	type fr struct {
 		t *Term
 		i int
@@ -193,6 +206,7 @@ func (s *Solver) Assert(t *Term) {
 	if t.IsConst() && t.K != 0 {
 		return
 	}
+	s.open()
 	s.define(t)
 	s.send(fmt.Sprintf("(assert %s)\n", ref(t)))
 }
@@ -227,6 +241,7 @@ func (s *Solver) Check(extra []*Term, wanted []*Term) (Result, []uint64) {
 	if s.dead {
 		return Unknown, nil
 	}
+	s.open()
 	for _, e := range extra {
 		s.define(e)
 	}
